@@ -117,6 +117,13 @@ type packedState struct {
 	extra             []string          // empty files to create
 	index             string            // "before" | "after"
 	variant           int               // how an in-flight remove is continued: 0 re-receive, 1 re-remove
+	crashPack         string            // pack the crashed op wrote to, offset of its record in it
+	crashOff          int64
+	// mode: "" = restart on the store's own index; "rebuilt" = the index is rebuilt from the packs
+	// first (Reindex into a fresh index) and the history continues on the rebuilt index; "ahead" =
+	// the index has the row of a record whose body did not (all) reach the pack, judged only after
+	// the acknowledged retry of that upload
+	mode string
 }
 
 type packedJob struct {
@@ -239,7 +246,31 @@ func (j *packedJob) prepare() bool {
 	x := w.Uni[last.B]
 	hdr := []byte(fmt.Sprintf("[%s %d]", x.Ref, len(x.Data)))
 	H, L := len(hdr), len(hdr)+len(x.Data)
-	add := func(st packedState) { j.states = append(j.states, st) }
+	var crashPack string
+	crashOff := int64(-1)
+	add := func(st packedState) {
+		st.crashPack, st.crashOff = crashPack, crashOff
+		j.states = append(j.states, st)
+	}
+	// every state is restarted a second time through the operator's recovery path: a fresh index
+	// rebuilt from the pack files, and the history continued on it
+	defer func() {
+		seen := map[string]bool{}
+		for _, st := range append([]packedState(nil), j.states...) {
+			if st.mode != "" {
+				continue
+			}
+			// quick tier: one state per (kind, offset class, index) instead of every byte offset
+			if k := st.kind + "|" + st.off + "|" + st.index; !r.Thorough() && seen[k] {
+				continue
+			} else {
+				seen[k] = true
+			}
+			st.mode = "rebuilt"
+			st.off += "/rebuilt"
+			j.states = append(j.states, st)
+		}
+	}()
 
 	if last.Recv {
 		if len(changed) == 0 {
@@ -258,6 +289,7 @@ func (j *packedJob) prepare() bool {
 		}
 		name := changed[0]
 		old, cur := pb[name], pa[name]
+		crashPack, crashOff = name, int64(len(old))
 		if !bytes.HasPrefix(cur, old) || !bytes.Equal(cur[len(old):], append(append([]byte(nil), hdr...), x.Data...)) {
 			j.fail("pack %s did not grow by exactly one record of the received blob", name)
 			return false
@@ -279,6 +311,7 @@ func (j *packedJob) prepare() bool {
 		}
 		rec := cur[len(old):]
 		j.rolled = len(added) == 1
+		aheadCuts := map[int]bool{H: true, H + 1: true, H + (L-H)/2: true, L - 1: true}
 		var cuts []int
 		if L <= 256 {
 			for l := 0; l < L; l++ {
@@ -291,6 +324,9 @@ func (j *packedJob) prepare() bool {
 			}
 			for i := 1; i <= 16; i++ {
 				set[H+2+(L-H-3)*i/17] = true
+			}
+			for l := range aheadCuts {
+				set[l] = true
 			}
 			for l := range set {
 				if l >= 0 && l < L {
@@ -329,6 +365,13 @@ func (j *packedJob) prepare() bool {
 			if l <= atIndex {
 				add(packedState{kind: kind, off: off, index: "before", packs: content,
 					detail: fmt.Sprintf("%s = before + %d of %d record bytes (header %d bytes), index as before", name, l, L, H)})
+			}
+			if l < atIndex && l >= H && aheadCuts[l] {
+				// not a state a process death produces here (the row is written after the record):
+				// the pack lost its tail while the index kept the row.  What the store shows before
+				// the client's retry is not judged; the acknowledged retry must heal the blob.
+				add(packedState{kind: "ahead-torn-body", off: off, index: "after", packs: content, mode: "ahead",
+					detail: fmt.Sprintf("%s = before + %d of %d record bytes (header %d bytes), index HAS the row (index ahead of the pack); judged after the acknowledged retry of the upload", name, l, L, H)})
 			}
 			if l >= atIndex {
 				// the index row was observed to be written at this point or earlier
@@ -382,6 +425,7 @@ func (j *packedJob) prepare() bool {
 	if hp+L < len(old) || name != namesA[len(namesA)-1] {
 		r.Note("events", "remove-in-older-position")
 	}
+	crashPack, crashOff = name, int64(hp)
 	size := L - H
 	mid := pm[name]
 	if len(atIdx) != 1 || len(mid) != len(old) {
@@ -537,7 +581,16 @@ func (j *packedJob) runCase(i int) {
 		return
 	}
 	o := newOracle(r, j.w, j.h, info)
+	o.crashPack, o.crashOff = st.crashPack, st.crashOff
 	r.Guard("diskpacked-restart", info, func() {
+		switch st.mode {
+		case "rebuilt":
+			j.runRebuilt(o, st, dir)
+			return
+		case "ahead":
+			j.runAhead(o, st, dir)
+			return
+		}
 		packedRestart(o, dir, j.idxKind, packMaxFileSize, "rebuilt1")
 		s, err := openPacked(dir, j.idxKind, "idx", packMaxFileSize)
 		if err != nil {
@@ -556,6 +609,20 @@ func (j *packedJob) runCase(i int) {
 		}
 		o.reindexCheck(dir, j.idxKind, packMaxFileSize, "rebuilt2")
 	})
+	if st.mode != "" {
+		r.Count("restarts_diskpacked_"+st.mode, 1)
+		r.Note("restart_modes", st.mode)
+		r.Note("restarts_"+st.mode, strings.TrimPrefix(st.kind, "pl-"))
+		r.Distinct(j.store + "|" + j.h.ID + "|" + st.kind + "|" + st.off)
+		if o.violations == 0 {
+			r.Count("cases_held", 1)
+		}
+		if st.mode == "ahead" {
+			r.Note("crash_states_diskpacked", st.kind)
+		}
+		sampleFirst(r, "diskpacked-mode-"+st.mode+"-"+strings.SplitN(st.kind, "-", 2)[0], map[string]any{"case": info, "continued_with": o.trace})
+		return
+	}
 	r.Count("restarts_diskpacked", 1)
 	r.Note("restarts", "diskpacked/"+st.kind)
 	r.Note("crash_points_diskpacked", st.kind)
@@ -585,6 +652,75 @@ func (j *packedJob) runCase(i int) {
 	if i >= 5 || i == len(j.states)-1 {
 		sampleFirst(r, "diskpacked-"+strings.SplitN(st.kind, "-", 2)[0], map[string]any{"case": info, "continued_with": o.trace})
 	}
+}
+
+// runRebuilt is the operator's recovery path after the crash: the index is rebuilt from the pack
+// files alone into a FRESH index (diskpacked.Reindex), the store is restarted on the rebuilt index
+// and the history continues there, the interrupted operation first.
+func (j *packedJob) runRebuilt(o *oracle, st packedState, dir string) {
+	r := j.r
+	const idxDir = "idx-recovered"
+	os.MkdirAll(filepath.Join(dir, idxDir), 0o755)
+	var err error
+	ok := ev.WithTimeout(120*time.Second, func() {
+		err = diskpacked.Reindex(context.Background(), dir, true, jsonconfig.Obj(idxConf(j.idxKind, filepath.Join(dir, idxDir))))
+	})
+	if !ok {
+		r.Inconclusive("diskpacked.Reindex did not return within 120s: " + o.info.CaseID)
+		return
+	}
+	r.Eval(1)
+	if err != nil {
+		// judged (and placed) in the plain restart of this state
+		r.Count("rebuilt_mode_reindex_failed", 1)
+		return
+	}
+	s, err := openPacked(dir, j.idxKind, idxDir, packMaxFileSize)
+	if err != nil {
+		o.violation("reopen-fails/diskpacked-reindexed", err.Error())
+		return
+	}
+	// a record of an unacknowledged attempt may be complete in the pack: the rebuilt index may have it
+	for ref := range o.attempted {
+		if _, ok := o.present[ref]; !ok {
+			o.uncertain[ref] = true
+		}
+	}
+	ck := o.checker(s, "diskpacked-reindexed")
+	ck.Audit(o.rng, false) // (the stream does not depend on the index: judged in the plain restart)
+	o.done(ck)
+	o.continueHistory(ck, st.variant)
+	ck.Audit(o.rng, true)
+	o.done(ck)
+	o.streamCheck(s, "diskpacked") // the stream reads the packs, whatever the index
+	closeStorage(s)
+	r.Note("events", "continued-on-rebuilt-index")
+	o.reindexCheck(dir, j.idxKind, packMaxFileSize, "rebuilt2")
+}
+
+// runAhead: the index has the row of the record, the pack does not have all of its body.  The
+// client retries the interrupted upload first; once that is acknowledged the blob must be intact
+// in every index-backed view.  (The torn record stays in the pack: stream and Reindex over it are
+// judged in the torn-body states.)
+func (j *packedJob) runAhead(o *oracle, st packedState, dir string) {
+	s, err := openPacked(dir, j.idxKind, "idx", packMaxFileSize)
+	if err != nil {
+		o.violation("reopen-fails/diskpacked", err.Error())
+		return
+	}
+	defer closeStorage(s)
+	ck := o.checker(s, "diskpacked")
+	o.phase = "-then-retry"
+	last := j.h.Ops[len(j.h.Ops)-1]
+	o.receive(ck, last.B)
+	if ck.LastErr() != nil {
+		return // reported by the checker (op-error)
+	}
+	ck.Audit(o.rng, false)
+	o.receive(ck, j.w.NH) // a new blob behind it
+	ck.Audit(o.rng, false)
+	o.done(ck)
+	j.r.Note("events", "index-ahead-retry")
 }
 
 // packedRestart opens the store on a crash state, audits every view and rebuilds the index.
@@ -622,7 +758,7 @@ func (o *oracle) reindexCheck(dir, idxKind string, mfs int, name string) {
 	o.r.Eval(1)
 	if err != nil {
 		o.r.Count("reindex_failures", 1)
-		o.violation("reindex-fails", "diskpacked.Reindex(overwrite) over the pack files failed: "+err.Error())
+		o.violation("reindex-fails/"+o.placeReindexError(err), "diskpacked.Reindex(overwrite) over the pack files failed: "+err.Error())
 		return
 	}
 	s, err := openPacked(dir, idxKind, idxDir, mfs)
@@ -631,7 +767,7 @@ func (o *oracle) reindexCheck(dir, idxKind string, mfs int, name string) {
 		return
 	}
 	defer closeStorage(s)
-	ck := sto.NewChecker(s, "diskpacked-reindexed", fullCaps, o.w.Uni, o.reporter("diskpacked-reindexed"))
+	ck := sto.NewChecker(s, "diskpacked-reindexed", fullCaps, o.w.Uni, o.reporter("diskpacked-reindexed", s))
 	for ref, d := range o.present {
 		ck.Present[ref] = d
 	}
